@@ -18,7 +18,7 @@ inductive QQ where
   | pinf
   | ninf
   | poison
-  deriving DecidableEq, Inhabited
+  deriving Inhabited
 
 namespace QQ
 
@@ -54,6 +54,15 @@ def leB : QQ → QQ → Bool
   | pinf, pinf => true
   | ninf, ninf => true
   | _, _ => false
+
+/-- `==` as the C++ scalar defines it (IEEE-like): unordered values are never equal -/
+def eqB : QQ → QQ → Bool
+  | fin a, fin b => decide (a = b)
+  | pinf, pinf => true
+  | ninf, ninf => true
+  | _, _ => false
+
+instance : BEq QQ := ⟨eqB⟩
 
 instance : LT QQ := ⟨fun a b => ltB a b = true⟩
 instance : LE QQ := ⟨fun a b => leB a b = true⟩
